@@ -225,6 +225,7 @@ def deref(v):
 def copy_val(v):
     """bitwise copy of an inline aggregate; heap objects are shared"""
     if isinstance(v, Agg):
+        if v.ty in ("Arc", "Rc", "ArcIntern"): return v          # a pointer to a shared heap allocation
         return Agg(v.ty, v.tag, [copy_val(x) for x in v.fields] if v.fields is not None else None, v.symtag, _copy_alts(v.alts, copy_val))
     return v
 
